@@ -1244,3 +1244,30 @@ Proof.
   unfold ids, classes_attrs_pseudoclasses, types_pseudoelements.
   destruct (sp_selector x) as [[b c] d]. split; reflexivity.
 Qed.
+
+(* ================================================================== part 3: re-assignment histories *)
+Fixpoint assigns_glued (ns : ns_map) (h : held) (hist : list (list stok)) : option held :=
+  match hist with
+  | [] => Some h
+  | g :: r => match assign_glued ns h g with Some h' => assigns_glued ns h' r | None => None end
+  end.
+
+Lemma rejected_keeps ns h rej :
+  Forall (fun g => run ns g = Some Rejected) rej -> assigns_glued ns h rej = Some h.
+Proof.
+  induction 1 as [|g rej Hg _ IH]; [reflexivity|]. cbn [assigns_glued]. unfold assign_glued. rewrite Hg. exact IH.
+Qed.
+
+Theorem held_specificity_lemma ns h0 before sel rej :
+  Declared ns sel ->
+  Forall (fun g => run ns g = Some Rejected) rej ->
+  forall h1, assigns_glued ns h0 before = Some h1 ->
+  exists seq, assigns_glued ns h0 (before ++ prepass (render sel) :: rej) =
+              Some (mkHeld (sp_selector sel) seq).
+Proof.
+  intros Hd Hr h1. revert h0. induction before as [|g before IH]; intros h0 Hb.
+  - cbn [app assigns_glued]. unfold assign_glued. rewrite (prepass_render ns sel Hd).
+    destruct (run_glued ns sel Hd) as (seq & E). rewrite E. cbn [option_map].
+    destruct (sp_selector sel) as [[b c] d]. cbn [commit]. exists seq. now apply rejected_keeps.
+  - cbn [app assigns_glued] in *. destruct (assign_glued ns h0 g) as [h'|]; [|discriminate]. now apply IH.
+Qed.
